@@ -39,7 +39,19 @@ TRUSTED = ["modelled: src/vary.rs (Settings::add_rule's assertion, VariedRespons
            "handle_vary_missing} (as in Model/Cache.v, with the variant vector instead of an association list), rustc 1.95 slice::binary_search_by "
            "(Model/RustStd.v), http 1.5.0 HeaderMap::get(&str) name normalisation (HEADER_CHARS), HeaderValue::to_str; "
            "handlers/transformations are the fixture menu (harness/src/c00pipe.rs = Model/Fixture.v); the dump reads VariedResponse's derived Debug output"]
-LEVEL_TEXT = "see below"
+LEVEL_TEXT = ("Coq theorems, for all rule sets (any number of rules, names, transformations, defaults), all header values and all histories "
+              "(requests, page clears, clear-all, waits/expiry): vary_served_for_equal_tuple — by an inductive invariant on the cache (every variant "
+              "vector strictly sorted for Rust's Ord on [Header], built with the page's rules, every stored response computed for a request of that page "
+              "with exactly the stored transformed list) no step panics and every reply is a 304, a stored response computed for a request with the same "
+              "path and an equal transformed list, or the response computed now for this very request; variants_sorted (no two entries with equal lists); "
+              "lookup_refines_map / insert_refines_map / lookup_never_wrong_variant (rustc 1.95 binary_search_by on the vector = finite map; exact match "
+              "even on an unsorted vector); vary_refines_map — the server's observations and handler invocations equal those of a finite-map server "
+              "(page, transformed list) -> response for every history when GET/HEAD responses are cacheable under the path key without expiry; "
+              "computed_once_per_tuple; default_applied; vary_header_eq (exact equation, rule order); stale_position_safe for the repaired "
+              "handle_vary_missing (second half of a request against any invariant-satisfying cache) with stale_position_v0_refuted for the code before "
+              "the repair (panic / unsorted vector, reproduced on the real code); vector_refines_assoc_list + vary_cache_transparent connect the vector "
+              "model to Model/Cache.v and C03's transparency. Tied to the repo by the differential run of the real kvarn::handle_cache against the "
+              "extracted model (incl. the order of the stored vector read from VariedResponse's Debug output) and the finite-map spec oracle.")
 LEVEL_NOTE = ("Trusted: Coq kernel; extraction (sample re-checked in-kernel); hand transcription of vary.rs / handle_cache into Model/Vary.v validated by the "
               "differential run incl. the order of the stored vector; moka as a finite map. No axioms.")
 TECHNIQUE = "Coq proof (inductive invariant over all histories + refinement of the sorted vector to a finite map) + differential correspondence on kvarn::handle_cache"
@@ -461,6 +473,10 @@ THEOREM_PINS = [
      'forall (negotiate : request -> fat -> option (N * bytes)) (rules_of : bytes -> list rule) (r : request) (f : fat) (lm cached : bool), let rp := finishV negotiate r f (own_tuple rules_of r) lm cached in (rp_body rp <> [] -> assoc (B "vary") (rp_headers rp) = Some (B "accept-encoding, range" ++ concat (map (fun ru : rule => B ", " ++ ru_name ru) (rules_of (rq_path r))))) /\\ (rp_body rp = [] -> assoc (B "vary") (rp_headers rp) = match negotiate r f with | Some _ => None | None => assoc (B "vary") (f_headers f) end)'),
     ('stale_position_safe',
      "forall (hstate : Type) (compute : hstate -> request -> bool -> fat * hstate * list bytes) (cache_on ims_on : bool) (negotiate : request -> fat -> option (N * bytes)) (rules_of : bytes -> list rule) (dbg : bool) (c : vcache) (hs : hstate) (now : N) (p : parked), InvV hstate compute rules_of c -> parked_ok rules_of p -> exists (st' : vstate hstate) (rp : reply) (lg : list bytes), serveV_phase2 hstate compute cache_on ims_on negotiate rules_of dbg c hs now p = Ok (st', rp, lg, [parked_req p]) /\\ InvV hstate compute rules_of (fst st') /\\ own_reply hstate compute negotiate rules_of (parked_req p) rp /\\ snd st' = snd (fst (compute hs (parked_req p) (parked_flag p))) /\\ lg = snd (compute hs (parked_req p) (parked_flag p))"),
+    ('vector_refines_assoc_list',
+     'forall (hstate : Type) (compute : hstate -> request -> bool -> fat * hstate * list bytes) (cache_on ims_on : bool) (parse_ims : bytes -> option Z) (sanitize_ok : request -> bool) (prime : request -> request) (negotiate : request -> fat -> option (N * bytes)) (rules_of : bytes -> list rule) (dbg : bool), (forall (hs : hstate) (r : request) (ok : bool), assoc (B "vary") (f_headers (fst (fst (compute hs r ok)))) = None) -> forall (ops : list op) (cV : vcache) (c : cache) (hs : hstate) (now : N), InvV hstate compute rules_of cV -> cache_rel rules_of cV c -> exists l : list (obs * list request), runV hstate compute cache_on ims_on parse_ims sanitize_ok prime negotiate rules_of dbg (cV, hs) now ops = Ok l /\\ map fst l = run hstate compute cache_on ims_on parse_ims sanitize_ok prime negotiate (vary_tuple_of rules_of) (vary_header_of rules_of) (c, hs) now ops'),
+    ('vary_cache_transparent',
+     'forall (hstate : Type) (compute : hstate -> request -> bool -> fat * hstate * list bytes) (ims_on : bool) (parse_ims : bytes -> option Z) (sanitize_ok : request -> bool) (prime : request -> request) (negotiate : request -> fat -> option (N * bytes)) (rules_of : bytes -> list rule) (dbg : bool), (forall (hs : hstate) (r : request) (ok : bool), assoc (B "vary") (f_headers (fst (fst (compute hs r ok)))) = None) -> forall cf : request -> bool -> fat, (forall (hs : hstate) (r : request) (ok : bool), fst (fst (compute hs r ok)) = cf r ok) -> (forall r r\' : request, get_or_head (rq_method r) = true -> get_or_head (rq_method r\') = true -> vary_tuple_of rules_of r = vary_tuple_of rules_of r\' -> rq_path r = rq_path r\' -> (qm (cf r true) = true -> path_query r = path_query r\') -> cf r true = cf r\' true) -> (forall r r\' : request, rq_path r = rq_path r\' -> qm (cf r true) = qm (cf r\' true)) -> (forall r : request, f_spref (cf r false) = SP_NONE) -> forall (ops : list op) (hs hsU : hstate) (now : N), Forall (op_no_ims ims_on prime) ops -> exists l : list (obs * list request), runV hstate compute true ims_on parse_ims sanitize_ok prime negotiate rules_of dbg ([], hs) now ops = Ok l /\\ Forall2 obs_equiv (map fst l) (run hstate compute false ims_on parse_ims sanitize_ok prime negotiate (vary_tuple_of rules_of) (vary_header_of rules_of) ([], hsU) now ops)'),
     ('stale_position_v0_refuted',
      '(run_vary_v0 stale_panic_history = XL [XN 2] /\\ run_vary stale_panic_history = stale_panic_history_out) /\\ run_vary_v0 stale_unsorted_history = stale_unsorted_history_out_v0 /\\ run_vary stale_unsorted_history = stale_unsorted_history_out'),
 ]
